@@ -213,5 +213,92 @@ def printPats (sig : Sig) (t : Slot.Tab) : List Pat → List String
   | p :: ps => printPat sig t p :: printPats sig t ps
 end
 
+/-! ### `RecExpr::parse` and `MultiPattern::parse` / `Display` (on top of `Pattern::parse`) -/
+
+mutual
+/-- `pattern_to_re` succeeds: no pattern variable, no substitution -/
+def isTerm : Pat → Bool
+  | .enode _ cs => isTermL cs
+  | _ => false
+def isTermL : List Pat → Bool
+  | [] => true
+  | p :: ps => isTerm p && isTermL ps
+end
+
+/-- `RecExpr::parse` -/
+def parseRe (sig : Sig) (s : List Char) (t : Slot.Tab) : Except PErr (Pat × Slot.Tab) :=
+  match parsePat sig s t with
+  | .ok (p, t') => if isTerm p then .ok (p, t') else .error .parseState
+  | .error e => .error e
+
+def splitEqEqGo : List Char → List Char → List (List Char)
+  | [], cur => [cur.reverse]
+  | [c], cur => [(c :: cur).reverse]
+  | c :: d :: r, cur => if c = '=' ∧ d = '=' then cur.reverse :: splitEqEqGo r [] else splitEqEqGo (d :: r) (c :: cur)
+
+/-- Rust `str::split("==")` on a char list -/
+def splitEqEq (s : List Char) : List (List Char) := splitEqEqGo s []
+
+def splitCommaGo : List Char → List Char → List (List Char)
+  | [], cur => [cur.reverse]
+  | c :: r, cur => if c = ',' then cur.reverse :: splitCommaGo r [] else splitCommaGo r (c :: cur)
+
+/-- Rust `str::split(",")` -/
+def splitComma (s : List Char) : List (List Char) := splitCommaGo s []
+
+/-- `str::trim` -/
+def trimWs (s : List Char) : List Char :=
+  ((s.dropWhile isWs).reverse.dropWhile isWs).reverse
+
+/-- one equation `?v == (op ?c1 .. ?ck)` of a multi-pattern -/
+abbrev MEq := String × Node × List String
+
+def allPvars : List Pat → Option (List String)
+  | [] => some []
+  | .pvar x :: r => (allPvars r).map (x :: ·)
+  | _ :: _ => none
+
+/-- the body of the loop of `MultiPattern::parse` for one trimmed, non-empty piece -/
+def parseMEq (sig : Sig) (x : List Char) (t : Slot.Tab) : Except PErr (MEq × Slot.Tab) :=
+  match splitEqEq x with
+  | [l, r] =>
+    match parsePat sig l t with
+    | .error e => .error e
+    | .ok (pl, t1) =>
+      match parsePat sig r t1 with
+      | .error e => .error e
+      | .ok (pr, t2) =>
+        match pl with
+        | .pvar v =>
+          match pr with
+          | .enode n cs =>
+            match allPvars cs with
+            | some vars => .ok ((v, n, vars), t2)
+            | none => .error .parseState
+          | _ => .error .parseState
+        | _ => .error .parseState
+  | _ => .error .tokenState
+
+def parseMEqs (sig : Sig) : List (List Char) → Slot.Tab → Except PErr (List MEq × Slot.Tab)
+  | [], t => .ok ([], t)
+  | x :: xs, t =>
+    match parseMEq sig x t with
+    | .error e => .error e
+    | .ok (e, t1) =>
+      match parseMEqs sig xs t1 with
+      | .error e => .error e
+      | .ok (es, t2) => .ok (e :: es, t2)
+
+/-- `MultiPattern::parse` -/
+def parseMulti (sig : Sig) (s : List Char) (t : Slot.Tab) : Except PErr (List MEq × Slot.Tab) :=
+  parseMEqs sig (((splitComma s).map trimWs).filter (fun x => !x.isEmpty)) t
+
+def printMEq (sig : Sig) (t : Slot.Tab) (e : MEq) : String :=
+  "?" ++ e.1 ++ " == " ++ printPat sig t (.enode e.2.1 (e.2.2.map .pvar))
+
+/-- `Display for MultiPattern` -/
+def printMulti (sig : Sig) (t : Slot.Tab) (mp : List MEq) : String :=
+  ", ".intercalate (mp.map (printMEq sig t))
+
 end Parse
 end SV
